@@ -4,7 +4,8 @@
   regenerated from /repo for this run.
 
   ops
-    c15.trace    {"events": [["S", name, hidden] | ["E", name], ...]}
+    c15.trace    {"events": [["S", name, hidden, intro0] | ["E", name], ...]}   (hidden: introspectable="0" or shadowed-by;
+                 intro0: introspectable="0" alone)
                  -> {"rows": [[state, prev_state, unknown_depth, node-stack depth], ...], "error": null | message,
                      "log": [...]}      one row per event, like cdrivers/c15_states.c prints for the real parser
     c15.lookup   {"state": s, "element": e, "has_node": b} -> null | {handler, needs_node, prelude, switch, target, push}
@@ -27,7 +28,8 @@ def evOf (j : Json) : Except String Ev := do
   let name ← (a.getD 1 Json.null).getStr?
   if kind == "S" then
     let hidden ← (a.getD 2 (Json.bool false)).getBool?
-    pure (Ev.start name hidden)
+    let intro0 ← (a.getD 3 (Json.bool hidden)).getBool?
+    pure (Ev.start name hidden intro0)
   else if kind == "E" then pure (Ev.stop name)
   else throw s!"event kind {kind}"
 
@@ -74,6 +76,7 @@ def handle (op : String) : Option Handler :=
         ("off_values", Json.arr (offValues.map fun p => Json.arr #[jS p.1, jS p.2.1, jS p.2.2.1, jS p.2.2.2]).toArray),
         ("not_in_schema", Json.arr (notInSchema.map fun p => Json.arr #[jS p.1, jS p.2.1, jS p.2.2]).toArray),
         ("passthrough_by_name", jSs Gen.c15CPassthroughByName),
+        ("own_intro_test", jSs Gen.c15COwnIntroTest),
         ("silent", jSs silentS),
         ("written_elements", jSs writtenElements),
         ("children", Json.arr (Gen.c15PyChildren.map fun p => Json.arr #[jS p.1, jS p.2]).toArray),
